@@ -287,12 +287,13 @@ def r51(ctx: Ctx) -> RuleReport:
 
 @rule('R52', 'Tree.reset_variables always rewrites the tree with the map it built, and maps every node variable')
 def r52(ctx: Ctx) -> RuleReport:
+    from .lexical import map_vars_func
     rep = RuleReport('R52', r52.title, floor=3)
     fi = ctx.repo.func('penman.tree', 'Tree.reset_variables')
     cfg = CFG(fi.node)
     pm = ctx.repo.parent_map(fi.node)
     apply_ = [n for n in walk_local(fi.node) if isinstance(n, ast.Assign) and norm(n.targets[0]) == 'self.node'
-              and isinstance(n.value, ast.Call) and norm(n.value.func) == '_map_vars']
+              and isinstance(n.value, ast.Call) and norm(n.value.func) == map_vars_func(ctx).name]
     if len(apply_) != 1:
         rep.undecided('penman.tree:Tree.reset_variables: the tree is rewritten by _map_vars', fi.loc(), f'{len(apply_)} such assignments')
         return rep
@@ -302,6 +303,11 @@ def r52(ctx: Ctx) -> RuleReport:
     rep.add('penman.tree:Tree.reset_variables: every call rewrites the tree (no early exit)', fi.loc(a), 'violation' if path else 'ok',
             'the method can return without applying the variable map: ' + ' -> '.join(repr(cfg.nodes[p]) for p in path[-4:]) if path else '')
     args = [norm(x) for x in a.value.args]
+    if a.value.keywords and not a.value.args:
+        # arguments given by keyword: put them in the order of the parameters
+        mvf = map_vars_func(ctx)
+        kw = {k.arg: norm(k.value) for k in a.value.keywords}
+        args = [kw[p_] for p_ in mvf.positional if p_ in kw]
     vm = args[1] if len(args) > 1 else None
     rep.add('penman.tree:Tree.reset_variables: _map_vars receives the whole tree and the map', fi.loc(a),
             'ok' if args[:1] == ['self.node'] and vm else 'undecided', str(args))
@@ -2085,6 +2091,22 @@ def r85(ctx: Ctx) -> RuleReport:
                       f'(not) taken, so the prefix is not the first alphabetic character')
         return rep
     decided = False
+    # filter(<predicate>, concept) with the predicate str.isalpha or operator.methodcaller('isalpha') (possibly through a module-level name)
+    for c in [n for n in walk_local(fi.node) if isinstance(n, ast.Call) and norm(n.func) in ('filter', 'next', 'any', 'map') and n.args]:
+        for a_ in ast.walk(c):
+            pred = a_
+            if isinstance(pred, ast.Name) and pred.id in fi.module.constants:
+                pred = fi.module.constants[pred.id]
+            mc = isinstance(pred, ast.Call) and norm(pred.func) in ('operator.methodcaller', 'methodcaller') and len(pred.args) == 1 and not pred.keywords
+            if (mc and try_fold(pred.args[0]) == (True, 'isalpha')) or (isinstance(pred, ast.Attribute) and norm(pred) == 'str.isalpha'):
+                if not decided and not rx_calls and not other_preds:
+                    rep.ok(key, fi.loc(c), norm(pred))
+                    decided = True
+            elif mc and try_fold(pred.args[0])[0] and not decided:
+                rep.violation(key, fi.loc(c), f'the letter test is `{norm(pred)}`, which is not str.isalpha()')
+                decided = True
+    if decided:
+        return rep
     for c in rx_calls:
         pat = flags = None
         if isinstance(c.func.value, ast.Name) and c.func.value.id == 're' and c.args:
@@ -2716,7 +2738,8 @@ def r101(ctx: Ctx) -> RuleReport:
 def r100(ctx: Ctx) -> RuleReport:
     from ..resolve import facts_ex
     rep = RuleReport('R100', r100.title, floor=2)
-    mv = ctx.repo.func('penman.tree', '_map_vars')
+    from .lexical import map_vars_func
+    mv = map_vars_func(ctx)
     mp = mv.positional[1] if len(mv.positional) > 1 else 'varmap'
     node_vars = set()
     for n in walk_local(mv.node):
